@@ -113,6 +113,7 @@ type Rig struct {
 	sockDir string
 	closed  bool
 	total   int            // outcomes already handed out by Sync
+	alive   int            // accept loops still running
 	Final   []AcceptResult // non-temporary results that ended accept loops
 }
 
@@ -153,6 +154,7 @@ func NewRig(w *World, cfg RigConfig) *Rig {
 	if n < 1 {
 		n = 1
 	}
+	r.alive = n
 	for i := 0; i < n; i++ {
 		r.wg.Add(1)
 		go r.loop()
@@ -177,6 +179,7 @@ func (r *Rig) loop() {
 		final := pv == nil && err != nil && !res.Temporary
 		if final {
 			r.Final = append(r.Final, res)
+			r.alive--
 		} else {
 			r.results = append(r.results, res)
 		}
@@ -248,6 +251,14 @@ func (r *Rig) Sync() []AcceptResult {
 		if idx >= 0 {
 			out := append([]AcceptResult(nil), r.results[:idx]...)
 			out = append(out, r.results[idx+1:]...)
+			r.total += len(r.results)
+			r.results = nil
+			return out
+		}
+		if r.alive == 0 {
+			// every accept loop has ended with a non-temporary error: nothing more
+			// will be processed; the caller finds the reason in r.Final
+			out := append([]AcceptResult(nil), r.results...)
 			r.total += len(r.results)
 			r.results = nil
 			return out
